@@ -199,6 +199,9 @@ def double (a : CurvePoint) : CurvePoint :=
   let t := A + A
   let e := t + A
   let f := (e * e) % p
+  -- z first (the receiver may alias `a`: a.y, a.z are read before c.y is written)
+  let t := (a.y * a.z) % p
+  let cz := t + t
   let t := d + d
   let cx := f - t
   let t := C + C
@@ -207,8 +210,6 @@ def double (a : CurvePoint) : CurvePoint :=
   let cy := d - cx
   let t2 := (e * cy) % p
   let cy := t2 - t
-  let t := (a.y * a.z) % p
-  let cz := t + t
   ⟨cx, cy, cz, 0⟩
 
 def add (a b : CurvePoint) : CurvePoint :=
@@ -318,6 +319,8 @@ def double (a : TwistPoint) : TwistPoint :=
   let t := A.add A
   let e := t.add A
   let f := e.square
+  let t := a.y.mul a.z
+  let cz := t.add t
   let t := d.add d
   let cx := f.sub t
   let t := C.add C
@@ -326,8 +329,6 @@ def double (a : TwistPoint) : TwistPoint :=
   let cy := d.sub cx
   let t2 := e.mul cy
   let cy := t2.sub t
-  let t := a.y.mul a.z
-  let cz := t.add t
   ⟨cx, cy, cz, .zero⟩
 
 def add (a b : TwistPoint) : TwistPoint :=
